@@ -38,6 +38,8 @@ theorem prefix_take {α : Type} {l1 l2 : List α} (h : l1 <+: l2) (n : Nat) : l1
 /-- a mailbox row with this id exists (under whatever app) -/
 def HasId (d : Chan) (mb : String) : Prop := ∃ m ∈ d.mailboxes, m.id = mb
 
+instance (d : Chan) (mb : String) : Decidable (d.HasId mb) := by unfold HasId; infer_instance
+
 theorem HasBox.hasId {d : Chan} {app mb : String} (h : d.HasBox app mb) : d.HasId mb := by
   obtain ⟨m, hm, _, hi⟩ := h; exact ⟨m, hm, hi⟩
 
